@@ -32,8 +32,8 @@ THEOREMS = {
     "Proofs.C20": ["VerifModel.C20." + t for t in [
         "C20_accumulate", "C20_accumulate_too_long", "C20_accumulate_missing_iff", "C20_cumulative",
         "C20_accumulate_w1", "C20_accumulate_axis", "C20_accumulate_file", "C20_accumulate_file_total",
-        "C20_cdf", "C20_cdf_bounds", "C20_cdf_mono", "C20_cdf_missing",
-        "C20_quantile", "C20_quantile_single", "C20_quantile_def",
+        "C20_cdf", "C20_cdf_bounds", "C20_cdf_mono", "C20_cdf_missing", "C20_cdf_file",
+        "C20_quantile", "C20_quantile_single", "C20_quantile_def", "C20_quantile_file",
         "C20_pit", "C20_pit_missing_obs",
         "C20_expand", "C20_expand_nowhere_else", "C20_expand_times", "C20_window_file", "C20_preserve"]],
 }
@@ -67,7 +67,11 @@ RULE = ("seeded random files: 1-4 times x 1-6 lead times x 1-3 locations, values
         "or date+hour columns, rows shuffled); accumulate: every -w in 1..len+1 and none, both axes, -i; plus files "
         "large enough for SciPy's auto method to pick FFT (48 lead times x 10 locations, -w 24; the scripts now force "
         "the direct method); ens2prob: thresholds "
-        "below/inside/equal-to-member/above, levels incl. 0 and 1, -p; expandverif: -i hour lists (or default), "
+        "below/inside/equal-to-member/above, levels incl. 0 and 1, -p; -r and -q lists that are not ascending (every "
+        "ordering of three thresholds and of three levels on a fixed 2x2x2 file with 4 members, repeated thresholds, "
+        "descending lists typed as ranges like 6:-2:0, plus random reversed/rotated/shuffled lists): each cdf/x slice "
+        "is judged against the threshold/level stored at the same index of the coordinate variable, and "
+        "monotonicity is read along the sorted coordinate; expandverif: -i hour lists (or default), "
         "-lt lists partly outside the input, unsorted and overlapping times; window: files with both fields and files "
         "that lack obs, fcst or both; an op is non-trivial if the transformed "
         "field holds a finite number")
@@ -76,6 +80,7 @@ EXHAUSTIVE_NOTE = "random; for each generated series length every window length 
 LEVEL_TEXT = ("Lean theorems over a hand-written model of the script kernels: trailing-window sums and running totals "
               "equal the documented sums with the documented missingness for series and windows of any length "
               "(induction over lists), lifted to both axes; CDF in [0,1] and monotone, step-function quantiles "
+              "(file level: slice i of cdf/x belongs to entry i of the -r/-q list in whatever order it was typed) "
               "monotone, inside the member range and equal to the floor rule, PIT = fraction below (for non-missing "
               "observations), valid-time matching places the first stored observation and nothing else, metadata "
               "copied. The model is tied to the real scripts by running them on generated NetCDF and text files.")
@@ -273,6 +278,17 @@ def _numlist(tok):
     return ",".join(_dec(x) for x in from_xvec(tok))
 
 
+def _rlist(tok):
+    """how the -r / -q list of an op is typed: a descending whole-number progression of three or more values goes in as
+    the range `first:step:last` (e.g. 6,4,2,0 -> 6:-2:0), everything else as a comma list"""
+    v = from_xvec(tok)
+    if len(v) >= 3 and all(float(x).is_integer() for x in v):
+        d = v[1] - v[0]
+        if d < 0 and all(v[i + 1] - v[i] == d for i in range(len(v) - 1)):
+            return "%d:%d:%d" % (v[0], d, v[-1])
+    return _numlist(tok)
+
+
 def _mini(series=None, M=0, ens=None, obs=None, leads=None):
     """FILE tokens of a one-location file holding `series` along the lead-time axis"""
     n = len(series) if series is not None else 1
@@ -343,7 +359,7 @@ def impl(op):
             if k == "e2p":
                 argv = [ipath, opath]
                 if a[1] != "-":
-                    argv.append("-r=" + _numlist(a[1]))
+                    argv.append("-r=" + _rlist(a[1]))
                 if a[2] != "-":
                     argv.append("-q=" + _numlist(a[2]))
                 if a[3] == "1":
@@ -433,6 +449,47 @@ def _q_in_domain(q, M):
         if (fq >= Fraction(i, M - 1)) != (q >= g[i]):
             return False
     return True
+
+
+def _unsorted(rng, v):
+    """a reordering of the ascending list v that is not ascending (v itself if it has fewer than two values)"""
+    v = list(v)
+    if len(v) < 2:
+        return v
+    k = rng.randint(0, 2)
+    if k == 0:
+        return v[::-1]
+    if k == 1:
+        j = rng.randrange(1, len(v))
+        return v[j:] + v[:j]
+    w = list(v)
+    while w == v:
+        rng.shuffle(w)
+    return w
+
+
+# the file of the fixed ordering ops: 2 times x 2 lead times x 2 locations, 4 members
+_ORDER_ENS = [3.0, 4.0, 5.0, 9.0, 11.0, 6.0, 4.0, 1.5, 4.5, 4.0, 0.5, 2.0, 2.5, 2.0, 2.25, 7.0,
+              0.0, 8.0, 3.5, 3.75, 5.5, 1.25, 1.5, 9.5, -1.0, 0.25, 6.5, 2.5, 7.5, 7.75, 3.25, float("nan")]
+_ORDER_OBS = [3.0, 6.0, 5.0, 1.0, 5.0, 4.0, float("nan"), 7.0]
+
+
+def _order_ops():
+    """deterministic: every ordering of three thresholds and of three levels, repeated thresholds, descending ranges"""
+    import itertools
+
+    def file(fmt):
+        return [fmt, "T", "K", "%d,%d" % (BASE_TIME, BASE_TIME + 86400), "0,6", "3,7", "53,57", "10,10", "12,12",
+                xvec(_ORDER_OBS), xvec([o + 1 for o in _ORDER_OBS]), "4", xvec(_ORDER_ENS)]
+    tperm = list(itertools.permutations([1.0, 3.0, 5.0]))
+    qperm = list(itertools.permutations([0.25, 0.5, 1.0]))
+    for k in range(6):
+        yield "e2p.order", " ".join(["e2p", xvec(tperm[k]), "-", "0"] + file(FMTS[k % 4]))
+        yield "e2p.order", " ".join(["e2p", "-", xvec(qperm[k]), "0"] + file(FMTS[(k + 1) % 4]))
+        yield "e2p.order", " ".join(["e2p", xvec(tperm[k]), xvec(qperm[5 - k]), "1"] + file(FMTS[(k + 2) % 4]))
+    for j, thr in enumerate([[6.0, 4.0, 2.0, 0.0], [5.0, 4.0, 3.0, 2.0, 1.0], [2.0, 0.0, -2.0], [5.0, 1.0, 5.0, 3.0],
+                             [3.0, 3.0, 1.0], [4.5, 2.25, 7.0, 0.5], [9.0, 4.0], [10.0, 1.0, 5.0, 2.0, 4.0, 3.0]]):
+        yield "e2p.order", " ".join(["e2p", xvec(thr), "-", str(j % 2)] + file(FMTS[j % 4]))
 
 
 QLEVELS = [0.0, 0.05, 0.1, 0.2, 0.25, 0.3, 0.4, 0.5, 0.6, 0.7, 0.75, 0.8, 0.9, 0.95, 0.99, 1.0]
@@ -546,6 +603,25 @@ def gen_ops(tier, rng):
         file = _gen_file(rng, need=need, nonneg=rng.random() < 0.7, text_ok=bool(need))
         b = rng.choice(["below=", "below", "above", "above="])
         yield "win.nofield", " ".join(["win", b, xr(rng.choice([0.0, 0.5, 1.0, 2.0]))] + file)
+    # ---- ens2prob with -r / -q lists that are NOT ascending: the cdf (x) slice stored at index i must belong to
+    # the threshold (level) stored at index i of the coordinate variable, whatever order the user typed
+    for item in _order_ops():
+        yield item
+    for i in range(40 if quick else 400):
+        M = rng.choice([2, 3, 4, 5, 6])
+        file = _gen_file(rng, M=M, T=rng.choice([1, 2]), L=rng.choice([1, 2, 3]), S=rng.choice([1, 2]),
+                         need=rng.choice([("obs", "fcst"), ("obs",)]))
+        members = [x for x in from_xvec(file[12]) if not math.isnan(x)]
+        lo, hi = (min(members), max(members)) if members else (0.0, 1.0)
+        cand = [lo - 1, hi + 1, lo, hi, (lo + hi) / 2, 0.1, 2.3] + members[:3] + [rng.choice(GRID) for _ in range(2)]
+        thr = _unsorted(rng, sorted(set(rng.sample(cand, rng.randint(2, 5)))))
+        qs = []
+        if i % 2:
+            qs = sorted(set(q for q in rng.sample(QLEVELS, rng.randint(2, 5)) if _q_in_domain(q, M)))
+            qs = _unsorted(rng, qs)
+        if i % 5 == 0 and thr:
+            thr.insert(rng.randrange(len(thr) + 1), rng.choice(thr))      # a threshold typed twice
+        yield "e2p.order", " ".join(["e2p", xvec(thr), xvec(qs), str(rng.randint(0, 1))] + file)
 
 
 # ------------------------------------------------------------------ oracle (plain Python, exact)
